@@ -231,7 +231,9 @@ def shard(shard_no, nshards, seed, tier, extra):
     small = [p for p in corpus if os.path.getsize(p) < 5000]
     for i in range(n):
         r = rng.random()
-        if r < 0.6:
+        if r < 0.1:
+            code, feats = progs.struct_inits(rng)
+        elif r < 0.6:
             code, feats = progs.multi_evidence(rng)
         elif r < 0.68:
             pool = layoutgen.aliasing_pool(rng)
